@@ -255,9 +255,15 @@ def rule_passthrough(ctx, m):
                ('the ordering direction of intersection points is not the sign of the coordinate difference: a leg '
                 f'inside one {ax} band (index change 0) gets direction 0, its pieces zig-zag and its length '
                 'fractions sum to more than one'), line=(d.lineno if d is not None else hz.node.lineno))
+    rule_forwarding(ctx, m, 'C04-R6', ('integrated_variables', 'lats', 'lons'),
+                    'points / per-segment quantities that are filtered out or moved here are missing from, or misplaced in, '
+                    'the gridded total')
+
+
+def rule_forwarding(ctx, m, rule, tracked, consequence):
+    """the entry points hand their arguments to the gridding as received"""
     forwarding = ['Gridder.grid_trajectory', 'Gridder._grid_trajectory_without_dateline_crossing',
                   'Gridder._grid_trajectory_with_dateline_crossing']
-    tracked = ('integrated_variables', 'lats', 'lons')
     for qn in forwarding:
         fi = m.func(qn)
         for nm in tracked:
@@ -267,18 +273,17 @@ def rule_passthrough(ctx, m):
             filt = [x for x in walk_no_nested(fi.node) if isinstance(x, ast.Subscript) and norm(x.value) == nm
                     and nm == 'integrated_variables']
             ok = not rebinds
-            ctx.ob('C04-R6', fi, f'`{nm}` reaches the gridding unmodified', ok,
+            ctx.ob(rule, fi, f'`{nm}` reaches the gridding unmodified', ok,
                    'passed through as received' if ok else
-                   (f'`{nm}` is rebound at line {rebinds[0].lineno} (`{norm(rebinds[0])[:70]}`) before the shares are '
-                    'computed: points / per-segment quantities that are filtered out here are missing from the '
-                    'gridded total'), line=(rebinds[0].lineno if rebinds else fi.node.lineno))
+                   (f'`{nm}` is rebound at line {rebinds[0].lineno} (`{norm(rebinds[0])[:70]}`) before the cells and shares are '
+                    f'computed: {consequence}'), line=(rebinds[0].lineno if rebinds else fi.node.lineno))
         for c in calls_in(fi.node):
             callee = resolve_call(ctx.prog, fi, c)
             if callee is not None and 'integrated_variables' in callee.params:
                 i = callee.params.index('integrated_variables') - 1
                 a = c.args[i] if 0 <= i < len(c.args) else None
                 ok = a is not None and norm(a) == 'integrated_variables'
-                ctx.ob('C04-R6', fi, f'{callee.name}(…, integrated_variables={norm(a) if a is not None else "?"})', ok,
+                ctx.ob(rule, fi, f'{callee.name}(…, integrated_variables={norm(a) if a is not None else "?"})', ok,
                        'the caller\'s integrated variables, whole' if ok else
                        'a filtered / different value is passed as the integrated variables', line=c.lineno)
 
@@ -290,6 +295,10 @@ def run(ctx):
     rule_share(ctx, m)
     # only names that bear on the integrated quantities: the values themselves, the split lengths and the geometry
     rule_suffix(ctx, m, name_filter=lambda nme: re.search(r'integrated|length|lat|lon', nme) is not None)
+    # the horizontal cells a segment's pieces are cut at come from searching the axes themselves (shares sum to one
+    # only if the start/end cells and the midpoint cells are found the same way)
+    from .c05 import rule_lookup
+    rule_lookup(ctx, m, 'C04-R7')
     ctx.note('NOT decided: the numeric conservation bound, grid-line intersection geometry, great-circle vs map-line lengths')
     ctx.assumptions += ['np.divide(out=, where=) leaves `out` untouched where the guard is false',
                         'np.repeat(a, counts) repeats element i counts[i] times']
